@@ -6,6 +6,7 @@ mod aead;
 mod stream;
 mod c04;
 mod pwstr;
+mod c05;
 
 #[global_allocator]
 static GLOBAL: c04::Counting = c04::Counting;
@@ -30,6 +31,7 @@ fn main() {
         "C03" => stream::run_c03(&mut out, tier, seed),
         "C04" => c04::run(&mut out, tier, seed),
         "C10" => pwstr::run_c10(&mut out, tier, seed),
+        "C05" => c05::run(&mut out, tier, seed),
         _ => { eprintln!("unknown property {}", prop); std::process::exit(2); }
     }
     out.finish(prop, tier, seed);
